@@ -85,7 +85,9 @@ func (rm *RpcMultiplexer) CallUnaryMethod(
 
 	respChan := make(chan *goatorepo.Rpc, 1)
 
-	rm.registerHandler(streamId, respChan)
+	if err := rm.registerHandler(streamId, respChan); err != nil {
+		return nil, err
+	}
 	defer rm.unregisterHandler(streamId)
 
 	rpc := goatorepo.Rpc{
@@ -145,7 +147,9 @@ func (rm *RpcMultiplexer) NewStreamReadWriter(
 	streamId := atomic.AddUint64(&rm.streamCounter, 1)
 
 	respChan := make(chan *goatorepo.Rpc, 1)
-	rm.registerHandler(streamId, respChan)
+	if err := rm.registerHandler(streamId, respChan); err != nil {
+		return 0, nil, nil, err
+	}
 
 	teardown := func() {
 		rm.unregisterHandler(streamId)
@@ -205,11 +209,20 @@ func (rm *RpcMultiplexer) handleResponse(rpc *goatorepo.Rpc) {
 	ch <- rpc
 }
 
-func (rm *RpcMultiplexer) registerHandler(id uint64, c chan *goatorepo.Rpc) {
+// registerHandler registers c to receive the Rpcs with the given id. It fails
+// if the read loop has already failed: closeError has closed and dropped every
+// registered channel by then, so a later registration would never be closed
+// and its caller would wait for ever.
+func (rm *RpcMultiplexer) registerHandler(id uint64, c chan *goatorepo.Rpc) error {
 	rm.mutex.Lock()
 	defer rm.mutex.Unlock()
 
+	if rm.rErr != nil {
+		return rm.rErr
+	}
+
 	rm.handlers[id] = c
+	return nil
 }
 
 func (rm *RpcMultiplexer) unregisterHandler(id uint64) {
